@@ -20,7 +20,10 @@ for f in sorted(glob.glob(os.path.join(ROOT, 'seeded', '*', 'meta.json'))):
     chk = m.get('checks', {})
     own_e = chk.get(own, {})
     how = 'failing input' if own_e.get('violation') and not own_e.get('no_failing_input_found') else \
-        'proof/correspondence break, no-failing-input-found' if own_e.get('violation') else 'MISSED by its own check'
+        'proof/correspondence break, no-failing-input-found' if own_e.get('violation') else \
+        ('outside the property\'s quantifier (' + m['note'] + ')') if m.get('note') else 'MISSED by its own check'
+    if m.get('rebased'):
+        title += ' [re-made on the repaired tree]'
     classes = ', '.join(sorted((own_e.get('violation_classes') or {}).keys())[:3])
     conf = m.get('confirmed') or {}
     confs = 'demo %s→%s; %s' % (conf.get('demo_without_change_rc', '?'), conf.get('demo_with_change_rc', '?'), (conf.get('test_suite_with_change') or '?').split(',')[0])
